@@ -441,6 +441,30 @@ func rflSourceFacts(repo string, b *strings.Builder) error {
 	if len(g2) == 0 {
 		return fmt.Errorf("reflect extractor: alt.recomp: lookup by rv.Type().Name() not found")
 	}
+	// does the field walk unwrap `ft = ft.Elem()` inside a loop (a720b7c) or once?
+	inLoop, once := false, false
+	ast.Inspect(rc.Body, func(n ast.Node) bool {
+		switch st := n.(type) {
+		case *ast.ForStmt:
+			if st.Cond == nil && st.Init == nil && st.Post == nil {
+				ast.Inspect(st.Body, func(m ast.Node) bool {
+					if as, ok := m.(*ast.AssignStmt); ok && rflExprText(fsr, as) == "ft = ft.Elem()" {
+						inLoop = true
+					}
+					return true
+				})
+			}
+		case *ast.AssignStmt:
+			if rflExprText(fsr, st) == "ft = ft.Elem()" {
+				once = true
+			}
+		}
+		return true
+	})
+	if !once {
+		return fmt.Errorf("reflect extractor: alt.registerComposer: `ft = ft.Elem()` not found")
+	}
+	fmt.Fprintf(b, "/-- alt/recomposer.go registerComposer: the field walk unwraps containers in a loop, down to the element type -/\ndef altRegisterWalkUnwrapsAll : Bool := %v\n\n", inLoop)
 	fmt.Fprintf(b, "/-- alt/recomposer.go registerComposer: when a new composer is built -/\ndef altRegisterNewCond : String := %q\n\n", g1)
 	fmt.Fprintf(b, "/-- alt/recomposer.go recomp: the lookups of a composer by bare type name -/\ndef altRecompLookups : List String := %s\n\n", rflLeanList(g2))
 	return nil
